@@ -347,6 +347,10 @@ def verify_function(qualname, contract, schema, timeout_ms=10000, contracts=None
         if frag.get("body_contains"):
             # several loops over the same iterable: the one whose body mentions the given text
             hits = [n for n in hits if frag["body_contains"] in "\n".join(ast.unparse(b) for b in n.body)]
+            if not hits:
+                # the iterable's source text may have been rewritten: fall back to the (unique) loop whose body mentions the text
+                hits = [n for n in ast.walk(fi.node) if isinstance(n, ast.For) and frag["body_contains"] in "\n".join(ast.unparse(b) for b in n.body)]
+                hits = [n for n in hits if not any(m is not n and m in list(ast.walk(n)) for m in hits)]  # innermost
         if len(hits) != 1:
             raise Unsupported("fragment: %d loops over %s in %s" % (len(hits), frag["iter"], qualname))
         body_stmts = hits[0].body
@@ -364,6 +368,7 @@ def verify_function(qualname, contract, schema, timeout_ms=10000, contracts=None
         it = Interp(mod, schema, mode=contract.get("mode", "REAL"), contracts=contracts or {})
         it.families = schema.get("__families__")
         it.concrete_new = set(contract.get("concrete_new", ()))
+        it.contract_raises = set(contract.get("raises") or ())
         if contract.get("class_module"):
             it.class_module = source.load(contract["class_module"])
             for cname, (cnode, cbases) in it.class_module.classes.items():
